@@ -31,3 +31,7 @@ package stubs
 //@   params ctx, sym, input
 //@   modifies count(extcalls)
 //@   ensures count(extcalls) == old(count(extcalls)) + 1
+// premise of C06/C08: the flags an external function asks to change exist
+// (the ghost constant `flagcount` stands for the session's flag count)
+//@   ensures forall(i, 0, len(result0.FlagSet), int(result0.FlagSet[i]) < count(flagcount))
+//@   ensures forall(i, 0, len(result0.FlagReset), int(result0.FlagReset[i]) < count(flagcount))
